@@ -151,7 +151,7 @@ func staleV1(user, pw string, ntA, ntB [16]byte, scA, scB []byte, withPw bool) {
 	if err != nil || h == nil {
 		return
 	}
-	for step := 0; step < 3; step++ {
+	for step := 0; step < 5; step++ {
 		nt, sc := ntA, scA
 		switch step {
 		case 1: // another challenge, same credential
@@ -161,6 +161,14 @@ func staleV1(user, pw string, ntA, ntB [16]byte, scA, scB []byte, withPw bool) {
 			h.ServerChallenge = append([]byte{}, scB...)
 			h.NTHash = append([]byte{}, ntB[:]...)
 			nt, sc = ntB, scB
+		case 3: // the challenge bytes overwritten in place (same slice, new contents)
+			h.NTHash = append([]byte{}, ntB[:]...)
+			copy(h.ServerChallenge, scA)
+			nt, sc = ntB, scA
+		case 4: // the hash bytes overwritten in place
+			copy(h.NTHash, ntA[:])
+			copy(h.ServerChallenge, scB)
+			nt, sc = ntA, scB
 		}
 		want := expectNTv1(nt, sc)
 		for _, c := range v1calls {
